@@ -2,6 +2,7 @@ package c10
 
 import (
 	"context"
+	"time"
 	"errors"
 
 	"github.com/cosi-project/runtime/pkg/resource"
@@ -170,6 +171,16 @@ func H_FaultyStore() {
 			cur, gerr := st.Get(ctx, p)
 			if gerr != nil {
 				continue
+			}
+			if verif.Choose("freshObject", 2) == 1 {
+				// an update built from scratch some time later: only the version (and the owner) are taken
+				// over; the store must keep the original creation time, in memory and durably
+				time.Sleep(time.Second)
+				fresh := tres.NewA(tres.NS, id, "")
+				fresh.Metadata().SetVersion(cur.Metadata().Version())
+				fresh.Metadata().SetOwner(cur.Metadata().Owner()) //nolint:errcheck
+				cur = fresh
+				verif.Cover("update with a freshly built object")
 			}
 			cur.(*tres.A).TypedSpec().S = verif.Atom("content")
 			if verif.Choose("addFinalizer", 2) == 1 {
